@@ -515,9 +515,11 @@ class rewrite_fact(Method):
         else:
             state.set_line(id, 'rewrite_fact', args=data['theorem'], prevs=prevs)
 
+        # If the goal is now proved by an earlier line, remove it (the last
+        # line of the whole proof states the theorem and always stays).
         id2 = id.incr_id(1)
         new_id = state.find_goal(state.get_proof_item(id2).th, id2)
-        if new_id is not None:
+        if new_id is not None and not (len(id2.id) == 1 and id2.last() == len(state.prf.items) - 1):
             state.replace_id(id2, new_id)
 
 
@@ -550,9 +552,11 @@ class rewrite_fact_with_prev(Method):
         state.add_line_before(id, 1)
         state.set_line(id, 'rewrite_fact_with_prev', prevs=prevs)
 
+        # If the goal is now proved by an earlier line, remove it (the last
+        # line of the whole proof states the theorem and always stays).
         id2 = id.incr_id(1)
         new_id = state.find_goal(state.get_proof_item(id2).th, id2)
-        if new_id is not None:
+        if new_id is not None and not (len(id2.id) == 1 and id2.last() == len(state.prf.items) - 1):
             state.replace_id(id2, new_id)
 
 
@@ -619,9 +623,11 @@ class apply_forward_step(Method):
         else:
             state.set_line(id, 'apply_theorem', args=data['theorem'], prevs=prevs)
 
+        # If the goal is now proved by an earlier line, remove it (the last
+        # line of the whole proof states the theorem and always stays).
         id2 = id.incr_id(1)
         new_id = state.find_goal(state.get_proof_item(id2).th, id2)
-        if new_id is not None:
+        if new_id is not None and not (len(id2.id) == 1 and id2.last() == len(state.prf.items) - 1):
             state.replace_id(id2, new_id)
 
 
